@@ -3,7 +3,8 @@
 (*                                                                                      *)
 (*   Sort -> Accumulate -> (Select | Warn) -> Erode -> Label -> done                    *)
 (*                                                                                      *)
-(* Start = "P":    every array P of cell probabilities in [Cells -> 0..MaxV] and every  *)
+(* Start = "P":    every array key of cell densities in [Cells -> 0..MaxV] (P = key div   *)
+(*                 Coarse the cell probabilities) and every                             *)
 (*                 limit L in 0..N*MaxV+1 (L plays the role of 1-alpha);                *)
 (* Start = "Mask": every region mask on the grid enters directly at Erode (the          *)
 (*                 boundary part does not depend on how the region was selected).       *)
@@ -14,6 +15,12 @@
 (* Deviations switched on by constants (mutation configs, must violate an invariant):   *)
 (*   Strict = TRUE : prefix with cum <  L instead of cum <= L                           *)
 (*   Cross  = TRUE : erosion / labelling with the 2n axis neighbours instead of 3^n-1   *)
+(*   RankByArray = TRUE : the cells are ordered by their probability P instead of by the *)
+(*                   key (their density; the code before fix 6dfb42b).  P is a monotone  *)
+(*                   but not injective image of the density (density * cell sizes,       *)
+(*                   rounded: densities a few ulps apart give equal products), modelled  *)
+(*                   as P = key div Coarse.  Ties of P are then split by index and an    *)
+(*                   excluded cell can be strictly denser than an enclosed one.          *)
 (*   LabelBoundary = TRUE : the connected pieces of the BOUNDARY are labelled instead of *)
 (*                   the regions (the code before fix 87ce4d1): a region with a hole     *)
 (*                   comes back as two coordinate sets                                   *)
@@ -25,10 +32,11 @@ EXTENDS HDCOps
 CONSTANTS S1, S2, S3,   \* grid shape <<S1, S2, S3>>; S3 = 0: 2-D <<S1, S2>>; S2 = 0: 1-D <<S1>>
           MaxV,         \* cell probabilities 0..MaxV
           Start,        \* "P" or "Mask"
-          Strict, Cross, Close, LabelBoundary
+          Coarse,       \* P[c] = key[c] div Coarse (1: the probabilities order the cells like the densities)
+          Strict, Cross, Close, LabelBoundary, RankByArray
 
-VARIABLES pc, P, L, order, cum, R, last, warned, hdc, sets
-vars == <<pc, P, L, order, cum, R, last, warned, hdc, sets>>
+VARIABLES pc, key, P, L, order, cum, R, last, warned, hdc, sets
+vars == <<pc, key, P, L, order, cum, R, last, warned, hdc, sets>>
 
 Shape == IF S3 > 0 THEN <<S1, S2, S3>> ELSE IF S2 > 0 THEN <<S1, S2>> ELSE <<S1>>
 N == NCells(Shape)
@@ -42,31 +50,32 @@ InnerBlock == {c \in All : \A d \in 1..Len(Shape) :
 Init ==
     /\ order = <<>> /\ cum = <<>> /\ hdc = {} /\ sets = <<>>
     /\ \/ /\ Start = "P"
-          /\ P \in [All -> 0..MaxV]
-          /\ L \in 0..(N * MaxV + 1)
+          /\ key \in [All -> 0..MaxV]
+          /\ P = [c \in All |-> key[c] \div Coarse]
+          /\ L \in 0..(N * (MaxV \div Coarse) + 1)
           /\ pc = "start" /\ R = {} /\ last = 0 /\ warned = FALSE
        \/ /\ Start = "Mask"
-          /\ P = [c \in All |-> 0] /\ L = 0
+          /\ P = [c \in All |-> 0] /\ L = 0 /\ key = P
           /\ R \in SUBSET All
           /\ pc = "selected" /\ last = 0 /\ warned = FALSE
        \/ /\ Start = "Holes"
-          /\ P = [c \in All |-> 0] /\ L = 0
+          /\ P = [c \in All |-> 0] /\ L = 0 /\ key = P
           /\ R \in {All \ H : H \in SUBSET InnerBlock}
           /\ pc = "selected" /\ last = 0 /\ warned = FALSE
 
-(* np.argsort(flat, kind="mergesort")[::-1] *)
+(* np.argsort(flat_key, kind="mergesort")[::-1]: ordered by the key, the array is only accumulated *)
 Sort ==
     /\ pc = "start"
-    /\ order' = DescOrder(P)
+    /\ order' = DescOrder(IF RankByArray THEN P ELSE key)
     /\ pc' = "sorted"
-    /\ UNCHANGED <<P, L, cum, R, last, warned, hdc, sets>>
+    /\ UNCHANGED <<key, P, L, cum, R, last, warned, hdc, sets>>
 
 (* np.cumsum(sort_vals) *)
 Accumulate ==
     /\ pc = "sorted"
     /\ cum' = PrefixSums(P, order, N)
     /\ pc' = "summed"
-    /\ UNCHANGED <<P, L, order, R, last, warned, hdc, sets>>
+    /\ UNCHANGED <<key, P, L, order, R, last, warned, hdc, sets>>
 
 Short == IF Close THEN cum[N] + 1 < L ELSE cum[N] < L
 (* cum_sum[-1] < limit: RuntimeWarning -> HDR = ones, prob_m = 0 *)
@@ -75,7 +84,7 @@ Warn ==
     /\ Short
     /\ warned' = TRUE /\ R' = All /\ last' = 0
     /\ pc' = "selected"
-    /\ UNCHANGED <<P, L, order, cum, hdc, sets>>
+    /\ UNCHANGED <<key, P, L, order, cum, hdc, sets>>
 
 (* sort_inds[cum_sum <= limit]; last_summed = array[summed_flat_inds[-1]].  When even    *)
 (* the densest cell exceeds the limit the code raises IndexError (pc = "error": recorded *)
@@ -88,14 +97,14 @@ Select ==
          ELSE /\ R' = {order[k] : k \in K}
               /\ last' = P[order[SetMax(K)]]
               /\ pc' = "selected"
-    /\ UNCHANGED <<P, L, order, cum, warned, hdc, sets>>
+    /\ UNCHANGED <<key, P, L, order, cum, warned, hdc, sets>>
 
 (* HDC = HDR - binary_erosion(HDR, structure) *)
 Erode ==
     /\ pc = "selected"
     /\ hdc' = BoundaryByErosion(MaskOf(R, N), Shape, Struct \cup {[d \in 1..Len(Shape) |-> 0]})
     /\ pc' = "eroded"
-    /\ UNCHANGED <<P, L, order, cum, R, last, warned, sets>>
+    /\ UNCHANGED <<key, P, L, order, cum, R, last, warned, sets>>
 
 (* ndi.label(HDR, structure); one coordinate set per region label: the boundary cells that *)
 (* carry the label, cells in raster order                                                 *)
@@ -105,7 +114,7 @@ Label ==
                ELSE LET regs == ComponentsSeq(R, Shape, Struct)
                     IN [i \in 1..Len(regs) |-> regs[i] \cap hdc]
     /\ pc' = "done"
-    /\ UNCHANGED <<P, L, order, cum, R, last, warned, hdc>>
+    /\ UNCHANGED <<key, P, L, order, cum, R, last, warned, hdc>>
 
 Next == Sort \/ Accumulate \/ Warn \/ Select \/ Erode \/ Label
 Spec == Init /\ [][Next]_vars
@@ -123,6 +132,10 @@ Threshold == Selected /\ ~warned => last = MinOver(P, R)
 (* "the cells whose density is at least fm": with ties only a sandwich holds *)
 Sandwich  == Selected => /\ {c \in All : P[c] > last} \subseteq R
                          /\ R \subseteq {c \in All : P[c] >= last}
+(* no excluded cell is strictly denser than an enclosed one - on the DENSITIES (key) *)
+DensityOrder == Selected => \A r \in R : \A c \in Out : key[r] >= key[c]
+(* fm = least density of the region: every denser cell is enclosed *)
+FmByDensity == Selected /\ ~warned /\ R # {} => {c \in All : key[c] > MinOver(key, R)} \subseteq R
 WarnIff   == Selected => (warned <=> Total < L)
 WarnAll   == Selected /\ warned => R = All /\ last = 0
 (* the naive reading R = {c : P[c] >= last} is false with ties (kept for the record,    *)
